@@ -181,6 +181,11 @@ def group(dim, quick):
     return [((1, 2, 0), ()), ((0, 2, 1), ()), ((0, 1, 2), (2,))] if quick else els
 
 
+# heavy scenarios: a data-dependent branch introduced into the step forks them; keep the exploration bound small
+transport_part.max_paths = 4
+velocity_part.max_paths = 4
+
+
 def main():
     chk = Check("C14", "axis permutation / mirror equivariance of the flow step: two symbolic runs on a state and its relabelled copy (z3)",
                 functions=["UnboundedNavierStokesFlowSimulator2D/3D.time_step", "PassiveTransportFlowSimulator.time_step", "Poisson solvers + curl + free stream (velocity recovery)"],
